@@ -32,8 +32,11 @@ class Item:
                 "answers": {k: sx.to_sexp(v[1]) for k, v in self.answers.items()}}
 
 
-def fragment_items(rng, n_programs, n_ground=4, n_closed=4, n_exists=5, shapes=None, corpus=True):
-    """(programs, items): programs = list of Prog, items = list of Item."""
+def fragment_items(rng, n_programs, n_ground=4, n_closed=4, n_exists=5, shapes=None, corpus=True, extra=()):
+    """(programs, items): programs = list of Prog, items = list of Item.
+    extra: [(shape function, count)] — additional programs of specific shapes; shapes that set
+    `Prog.fixed_goals` are posed exactly those goals (plus at most 2 generated `exists` goals
+    when n_exists > 0)."""
     progs, items = [], []
 
     def add(p, goals):
@@ -51,6 +54,15 @@ def fragment_items(rng, n_programs, n_ground=4, n_closed=4, n_exists=5, shapes=N
         p = pg.gen_program(rng, shapes)
         gg = pg.GoalGen(rng, p)
         add(p, gg.goals(n_ground, n_closed, n_exists))
+    for fn, count in extra:
+        for _ in range(count):
+            p = pg.gen_program(rng, [fn])
+            goals = list(p.fixed_goals or [])
+            if not goals:
+                goals = pg.GoalGen(rng, p).goals(n_ground, n_closed, 0)
+            if n_exists > 0:
+                goals += pg.GoalGen(rng, p).goals(0, 0, min(2, n_exists))
+            add(p, goals)
     return progs, items
 
 
